@@ -149,6 +149,40 @@ fn handle(line: &str, big: &mut [u8]) -> String {
                 Err(()) => "err".into(),
             }
         }
+        ["tbl", name] => match glue::table(name) {
+            Some(t) => t.iter().map(|(n, v)| format!("{}={}", n, v)).collect::<Vec<_>>().join(","),
+            None => "bad-case".into(),
+        },
+        ["cb", b] => {
+            let Ok(b) = b.parse::<u8>() else { return "bad-case".into() };
+            use ctap_types::ctap1::ControlByte::*;
+            match ctap_types::ctap1::ControlByte::try_from(b) {
+                Ok(c) => {
+                    let name = match c {
+                        CheckOnly => "CheckOnly",
+                        EnforceUserPresenceAndSign => "EnforceUserPresenceAndSign",
+                        DontEnforceUserPresenceAndSign => "DontEnforceUserPresenceAndSign",
+                    };
+                    format!("ok {} {}", name, c as u8)
+                }
+                Err(_) => "err".into(),
+            }
+        }
+        ["cpp", b] => {
+            let Ok(b) = b.parse::<u8>() else { return "bad-case".into() };
+            use ctap_types::ctap2::credential_management::CredentialProtectionPolicy::*;
+            match ctap_types::ctap2::credential_management::CredentialProtectionPolicy::try_from(b) {
+                Ok(c) => {
+                    let name = match c {
+                        Optional => "Optional",
+                        OptionalWithCredentialIdList => "OptionalWithCredentialIdList",
+                        Required => "Required",
+                    };
+                    format!("ok {} {}", name, c as u8)
+                }
+                Err(e) => format!("err {}", e as u8),
+            }
+        }
         ["vop", b] => {
             let Ok(b) = b.parse::<u8>() else { return "bad-case".into() };
             match ctap_types::ctap2::VendorOperation::try_from(b) {
